@@ -12,10 +12,10 @@ EXIT_BOUND = 6.0      # seconds from signal to process exit (observed ~0.5-1.5 s
 START_SLACK = 0.25    # a command whose shell was already being spawned when the signal arrived
 
 
-def make_ws(ws, r, workers=None):
+def make_ws(ws, r, workers=None, fixed=False):
     """chain a <- b <- c plus independent d, e -- or ("wide") eight independent targets, so that with 1-2 workers the pool has a
     backlog of queued jobs when the signal arrives; every command logs S/E with a timestamp and its shell pid"""
-    if r.chance(1, 2):
+    if not fixed and r.chance(1, 2):
         names = ["a", "b", "c", "d", "e"]
         deps = {"a": [], "b": ["a"], "c": ["b"], "d": [], "e": ["d"]}
     else:
@@ -24,6 +24,11 @@ def make_ws(ws, r, workers=None):
     sleeps = {n: r.choice(["0.3", "0.6", "1.0"]) for n in names}
     # in every second case ALL target shells ignore SIGTERM: "terminates the running target shells" must not depend on their cooperation
     all_ignore = r.chance(1, 2)
+    if fixed:
+        # the fixed cases (one in four): eight independent 3.5 s commands whose shells ignore SIGTERM and carry a timeout that never
+        # strikes, interrupted while the first ones run: a shell that is not KILLED is still there a second after grog has gone
+        sleeps = {n: "3.5" for n in names}
+        all_ignore = True
     targets = []
     for n in names:
         cmd = "\n".join(([
@@ -77,9 +82,15 @@ def one_case(args):
     ws, root, trace = os.path.join(d, "ws"), os.path.join(d, "root"), os.path.join(d, "trace")
     os.makedirs(root, exist_ok=True)
     workers = vlib.Rng(seed * 31 + k).choice([1, 2, 2, 4])
-    names = make_ws(ws, r, workers)
+    fixed = (k % 4 == 0)
+    if fixed:
+        workers = 2
+    names = make_ws(ws, r, workers, fixed=fixed)
     sig = r.choice([signal.SIGINT, signal.SIGTERM])
     delay = [0.02, 0.1, 0.25, 0.45, 0.7, 1.0, 1.4, 1.9, 2.6][r.below(9)] + r.below(100) / 1000.0
+    if fixed:
+        sig = [signal.SIGINT, signal.SIGTERM][(k // 4) % 2]
+        delay = 0.8
     env = bl.grog_env(root, trace)
     env["GROG_NUM_WORKERS"] = str(workers)
     t0 = time.time()
@@ -110,12 +121,25 @@ def one_case(args):
         late = [e for e in ev if e[0] == "S" and e[2] > tsig + START_SLACK]
         if late:
             res["problems"].append("target %s started %.2f s after the signal" % (late[0][1], late[0][2] - tsig))
-        alive = [e[3] for e in ev if e[0] == "S" and e[1] not in ended and os.path.exists("/proc/%d" % e[3])]
+        def running(pid):
+            # a process that was killed but is not reaped yet (state Z: its parent, grog, is gone and the reaper of this sandbox is
+            # slow) or is being torn down (X) is TERMINATED; so is one that disappears within a second (SIGKILL delivered, exit pending)
+            for _ in range(20):
+                try:
+                    st = open("/proc/%d/stat" % pid).read().rsplit(")", 1)[1].split()[0]
+                except (OSError, IndexError):
+                    return False
+                if st in ("Z", "X"):
+                    return False
+                time.sleep(0.05)
+            return True
+        alive = [e[3] for e in ev if e[0] == "S" and e[1] not in ended and running(e[3])]
         if alive:
             res["problems"].append("target shell(s) %s still alive after grog exited" % alive)
-        # a shell that outlived grog and finished its script: its E line is stamped after grog's exit
+        # a shell that outlived grog and finished its script: its E line is stamped after grog's exit (the trace is read AGAIN: a
+        # shell that was given its second of grace above may have ended in the meantime)
         if rc != "hang":
-            outlived = [(e[1], round(e[2] - texit, 2)) for e in ev if e[0] == "E" and e[2] > texit + 0.05]
+            outlived = [(e[1], round(e[2] - texit, 2)) for e in read_trace(trace) if e[0] == "E" and e[2] > texit + 0.05]
             if outlived:
                 res["problems"].append("target shell(s) kept running after grog exited and finished their commands %s s later: %s" % (
                     outlived[0][1], [n for n, _ in outlived]))
@@ -135,7 +159,7 @@ def one_case(args):
     got = outputs(ws, names)
     ws2, root2 = os.path.join(d, "ws2"), os.path.join(d, "root2")
     os.makedirs(root2, exist_ok=True)
-    make_ws(ws2, vlib.Rng(seed * 9176 + k), workers)
+    make_ws(ws2, vlib.Rng(seed * 9176 + k), workers, fixed=fixed)
     env2 = bl.grog_env(root2, os.path.join(d, "trace2"))
     subprocess.run([grog, "build", "//..."], cwd=ws2, env=env2, stdout=subprocess.PIPE, stderr=subprocess.PIPE, text=True, timeout=60)
     want = outputs(ws2, names)
